@@ -279,9 +279,39 @@ pub fn check_valid_market(ctx: &mut Ctx, m: &Market, shape: &str) -> Option<FXRa
         }
     }
     // ... and after derivative-order switches (raised to 2, lowered to 1 or 0): every one of the n*n rates keeps
-    // its value (4 ulps for the second-order build, see DESIGN 9.3) - in particular it is not the transposed table
+    // its value (the second-order build rounds each inversion along a path differently, DESIGN 9.3: up to a few
+    // ulps per step of the path, 64 ulps allowed) - in particular it is not the transposed table
     {
         let mut fx3 = fx.clone();
+        // first an update that has to be refused (a pair the market does not quote, or - when the quotes carry
+        // one - a different settlement date for one quote): refused, and without any later effect
+        {
+            let q = &m.quotes[(tr_hash as usize) % m.quotes.len()];
+            let (l, r2, st) = if q.settlement.is_some() && m.quotes.len() >= 2 {
+                (m.ccys[q.lhs].clone(), m.ccys[q.rhs].clone(), q.settlement.map(|z| z + 3))
+            } else {
+                (m.ccys[q.rhs].clone(), m.ccys[q.lhs].clone(), q.settlement)
+            };
+            if let Ok(bad_quote) = rateslib::fx::rates::FXRate::try_new(&l, &r2, rateslib::dual::Number::F64(q.val.value() * 1.5), st.map(crate::calmodel::to_ndt)) {
+                ctx.asserted(1);
+                ctx.class("refused-update-before-order-switches");
+                match guarded(|| fx3.update(vec![bad_quote]).is_ok()) {
+                    Caught::Ok(false) => {}
+                    Caught::Ok(true) => {
+                        ctx.violation("C09|update-that-must-be-refused-accepted", json!({"market": m.describe(), "pair": format!("{}{}", l, r2), "settlement": st}));
+                        return None;
+                    }
+                    Caught::Panic { loc, msg } => {
+                        if is_harness_location(&loc) {
+                            ctx.harness_error(format!("{} {}", loc, msg));
+                        } else {
+                            ctx.violation(&format!("C09|after-order-switches|panic|{}", short_loc(&loc)), json!({"market": m.describe(), "message": msg}));
+                        }
+                        return None;
+                    }
+                }
+            }
+        }
         let lower = if tr_hash % 2 == 0 { rateslib::dual::ADOrder::One } else { rateslib::dual::ADOrder::Zero };
         ctx.eval(1);
         ctx.class(&format!("after-order-switches:2-then-{}", if tr_hash % 2 == 0 { 1 } else { 0 }));
@@ -305,7 +335,7 @@ pub fn check_valid_market(ctx: &mut Ctx, m: &Market, shape: &str) -> Option<FXRa
             for b in 0..n {
                 ctx.asserted(1);
                 let got = fx3.rate(&ccys[a], &ccys[b]).map(|x| num_value(&x));
-                if !matches!(got, Some(g) if ulp_diff(g, vals[a][b]) <= 4) {
+                if !matches!(got, Some(g) if ulp_diff(g, vals[a][b]) <= 64) {
                     ctx.violation("C09|after-order-switches|rate-changed", json!({"market": m.describe(), "pair": format!("{}{}", m.ccys[a], m.ccys[b]), "as_built": vals[a][b], "after 1 -> 2 -> lower": got}));
                     return None;
                 }
@@ -469,6 +499,7 @@ impl Prop for C09 {
         v.push("after-order-switches:2-then-1".to_string());
         v.push("after-order-switches:2-then-0".to_string());
         v.push("python-layer:accessors".to_string());
+        v.push("refused-update-before-order-switches".to_string());
         v
     }
     fn min_evaluations(&self, tier: Tier) -> u64 {
